@@ -41,6 +41,10 @@ def base_scenarios(rng, tier):
     ops = [reg(1), reg(2), add(1, 1, valid(1, 1)), add(1, 2, valid(2, 3)), add(2, 1, valid(1, 1)), mine([D(1), D(2)]),
            mine([P(1, 1), P(2, 3)]), ff(96, "end"), ff(5, "end"), sub(1), sub(2)]
     out.append(scen("crash-completion", CFG_L, ops))
+    # a single tracker completing in its block (the refund takes another path than a batch), then another one
+    ops = [reg(1), add(1, 1, valid(1, 3)), add(1, 2, valid(2, 1)), mine([D(1)]), mine([P(1, 3)]), mine([D(2)]), mine([P(2, 1)]), ff(97, "end"),
+           ff(2, "each"), sub(1), ff(3, "each"), sub(1)]
+    out.append(scen("crash-completion-single", CFG_L, ops))
     # expiry / purge with appointments and trackers, renewal
     ops = [reg(1), reg(2), add(1, 1, valid(1)), add(2, 1, valid(1, 2)), add(2, 2, valid(2)), mine([D(1)]), reg(1), ff(4, "each"),
            add(1, 3, valid(3)), ff(4, "end"), sub(1), sub(2)]
@@ -113,7 +117,10 @@ def main(tier, replay=None):
                 stats["labels"][lb] = stats["labels"].get(lb, 0) + 1
             if tier == "quick":
                 want = 14
-                ks = sorted(set([0, n - 1] + [int(i * n / want) for i in range(want)] + [rng.randrange(n) for _ in range(4)])) if n else []
+                # always: the points around explicit transactions (and the writes next to them), then a spread over the history
+                hot = [i for i, lb in enumerate(ps["labels"]) if lb.startswith("batch_")]
+                near = [j for i in hot for j in range(i - 1, i + 4) if 0 <= j < n]
+                ks = sorted(set([0, n - 1] + near + [int(i * n / want) for i in range(want)] + [rng.randrange(n) for _ in range(4)])) if n else []
             else:
                 ks = list(range(n))
             group = [b]
@@ -139,6 +146,9 @@ def main(tier, replay=None):
         if t["prop"] != PID and t.get("after_crash") and t["prop"] in ("C01", "C02", "C04", "C07", "C09") and "@" in t["scenario"]["name"]:
             # after the restart every block not finished before the crash is answered exactly as the specification says
             t = dict(t, what="after_restart." + t["prop"] + "." + t["what"])
+        elif t["prop"] == "C07" and t["what"] in ("copies_differ", "conf.users") and t["event"]["act"] in ("RConnect", "GkConnect", "WConnect"):
+            # what the tower holds in memory was not made durable: the next restart loses it
+            t = dict(t, what="not_durable." + t["what"])
         elif t["prop"] != PID:
             continue
         ev = t["event"]
